@@ -642,23 +642,38 @@ func hasMethod(t types.Type, name string) bool {
 
 // returnedErrValues: the values the (named) error result may hold at ret.
 func returnedErrValues(f *ssa.Function, ret *ssa.Return) []ssa.Value {
-	v := ret.Results[len(ret.Results)-1]
-	if ld, ok := v.(*ssa.UnOp); ok && ld.Op == token.MUL {
-		// last store to the cell that dominates the return
-		var best *ssa.Store
-		for _, r := range core.Refs(ld.X) {
-			if st, ok := r.(*ssa.Store); ok && st.Addr == ld.X && core.Dominates(st, ret) {
-				if best == nil || core.Dominates(best, st) {
-					best = st
+	var out []ssa.Value
+	seen := map[ssa.Value]bool{}
+	var resolve func(v ssa.Value, at ssa.Instruction, depth int)
+	resolve = func(v ssa.Value, at ssa.Instruction, depth int) {
+		if seen[v] || depth > 6 {
+			return
+		}
+		seen[v] = true
+		if ld, ok := v.(*ssa.UnOp); ok && ld.Op == token.MUL {
+			// last store to the cell that dominates the use (a named result that
+			// is stored, tested and stored back is followed to the value it got)
+			var best *ssa.Store
+			for _, r := range core.Refs(ld.X) {
+				if st, ok := r.(*ssa.Store); ok && st.Addr == ld.X && core.Dominates(st, at) {
+					if best == nil || core.Dominates(best, st) {
+						best = st
+					}
 				}
 			}
+			if best != nil {
+				for _, w := range flattenPhi(best.Val) {
+					resolve(w, best, depth+1)
+				}
+			}
+			return
 		}
-		if best != nil {
-			return flattenPhi(best.Val)
-		}
-		return nil
+		out = append(out, v)
 	}
-	return flattenPhi(v)
+	for _, w := range flattenPhi(ret.Results[len(ret.Results)-1]) {
+		resolve(w, ret, 0)
+	}
+	return out
 }
 
 // edgeCondition: the branch condition and outcome under which control goes
